@@ -1,7 +1,7 @@
 (* C12 — Compiler emulation: aliases, implicit options, modes and passes.
    Statements only; proofs are in Proofs/C12*.v. *)
 From Coq Require Import Bool Ascii String List.
-From CBI Require Import Lib.Data Lib.Res Model.C12 Spec.C12 Proofs.C12 Gen.C12_tables.
+From CBI Require Import Lib.Data Lib.Res Model.C12 Spec.C12 Proofs.C12 Proofs.C12f Gen.C12_tables.
 Import ListNotations.
 Local Open Scope string_scope.
 Local Open Scope list_scope.
@@ -91,6 +91,37 @@ Theorem C12_modes_exact :
         map Some (g_blocks g) = map (fun m => aget m (c_modes c)) ms.
 Proof. exact modes_exact. Qed.
 Print Assumptions C12_modes_exact.
+
+(* Flags: for EVERY compiler definition and EVERY command line (any length) that the
+   specification's scanner reads - zero-argument flags spelled exactly, one-argument
+   flags as f=v, f v or (two-character options) fv, and non-options, each passing the
+   explicit side conditions wf_item - the model of parse_args (argparse classification,
+   the consumption loop, the custom actions, argv ++ implicit options) succeeds and
+   yields exactly the configurations and log events obtained by giving every item the
+   effect DECLARED for its flag.  Together with C12_modes_exact / C12_passes_exact:
+   a flag contributes exactly the definitions, include paths and include files
+   declared for the modes and passes it selects. *)
+Theorem C12_flags_exact :
+  forall c argv r, spec_parse c argv = Some r -> parse_args false c argv = inr r.
+Proof. exact flags_exact. Qed.
+Print Assumptions C12_flags_exact.
+
+(* A user configuration extends the built-in one.  For EVERY table and EVERY list of
+   user [compiler.NAME] tables with distinct names: a table that fails the schema
+   (a table with no key) makes the whole file be ignored; otherwise names the user
+   does not mention are untouched; a new name gets the user's definition; an alias
+   definition replaces the old one; any other definition keeps the old implicit
+   options and parser rules and APPENDS the user's, replaces modes and passes of the
+   same name, adds the others, and clears an alias. *)
+Theorem C12_user_extends :
+  forall t user, NoDup (map fst user) ->
+    (forallb (fun nd => udef_valid (snd nd)) user = false -> merge_user t user = t) /\
+    (forallb (fun nd => udef_valid (snd nd)) user = true ->
+       (forall name, ~ In name (map fst user) -> aget name (merge_user t user) = aget name t) /\
+       (forall name d, In (name, d) user ->
+          aget name (merge_user t user) = Some (merged_def (aget name t) d))).
+Proof. exact user_extends. Qed.
+Print Assumptions C12_user_extends.
 
 (* No history: for EVERY table and EVERY sequence of commands, the n-th answer is
    the answer the n-th command gets on its own *)
